@@ -105,6 +105,58 @@ pub fn child(kind: usize, k: usize, renderer: &str, size: usize, path: &str) {
         let _ = std::io::stdout().write_all(s.as_bytes());
         return;
     }
+    if kind == 17 {
+        // CONCURRENT writers of sibling files: while this thread writes `<path>` (k+1 times), other threads of the process
+        // write files of the same directory with the same stem and other extensions (.svg / .png / .tmp / .bak) again and
+        // again. No fault is injected: every call must return Ok and the file must then hold the in-memory rendering.
+        let me = std::path::Path::new(path).to_path_buf();
+        let stop = std::sync::Arc::new(std::sync::atomic::AtomicBool::new(false));
+        let mut others = Vec::new();
+        for (ext, rend) in [("svg", "svg"), ("png", "png"), ("tmp", "svgu"), ("bak", "svg")] {
+            let other = me.with_extension(ext);
+            if other == me {
+                continue;
+            }
+            let stop = stop.clone();
+            others.push(std::thread::spawn(move || {
+                while !stop.load(std::sync::atomic::Ordering::Relaxed) {
+                    let _ = std::panic::catch_unwind(|| write_file(rend, size + 1, other.to_str().unwrap_or("")));
+                }
+            }));
+        }
+        let expected = rendering(renderer, size);
+        let mut verdict = "ok:equal".to_string();
+        for _ in 0..=k {
+            let (r, p) = (renderer.to_string(), path.to_string());
+            match std::panic::catch_unwind(move || write_file(&r, size, &p)) {
+                Ok(Ok(())) => match std::fs::read(path) {
+                    Ok(f) if f == expected => {}
+                    Ok(f) => {
+                        verdict = format!("ok:differs:{}", f.len());
+                        break;
+                    }
+                    Err(_) => {
+                        verdict = "ok:absent".to_string();
+                        break;
+                    }
+                },
+                Ok(Err(_)) => {
+                    verdict = "err:-".to_string();
+                    break;
+                }
+                Err(_) => {
+                    verdict = "trap:-".to_string();
+                    break;
+                }
+            }
+        }
+        stop.store(true, std::sync::atomic::Ordering::Relaxed);
+        for t in others {
+            let _ = t.join();
+        }
+        let _ = std::io::stdout().write_all(verdict.as_bytes());
+        return;
+    }
     let (r, p) = (renderer.to_string(), path.to_string());
     let res = std::panic::catch_unwind(move || write_file(&r, size, &p));
     let s = match res {
@@ -189,7 +241,7 @@ pub fn file_line(kind: usize, k: usize, renderer: &str, size: usize) -> String {
             let s = String::from_utf8_lossy(&o.stdout).to_string();
             if s == "ok" || s == "err" || s == "trap" {
                 s
-            } else if kind == 16 && s.contains(':') {
+            } else if (kind == 16 || kind == 17) && s.contains(':') {
                 let (a, b) = s.split_once(':').unwrap();
                 child_state = Some(if a == "err" || a == "trap" { "absent".to_string() } else { b.to_string() });
                 a.to_string()
@@ -224,6 +276,8 @@ pub fn gen(out: &mut crate::gen::Out, rng: &mut crate::rng::Rng, thorough: bool)
             if renderer == "png" {
                 out.job(move || file_line(16, 0, renderer, size));
             }
+            // 30 (thorough 150) writes of this file while sibling files of the same stem are being written concurrently
+            out.job(move || file_line(17, if thorough { 150 } else { 30 }, renderer, size));
             let len = rendering(renderer, size).len();
             let mut ks: Vec<usize> = vec![0, 1, 2, len / 2, len - 1, len, len + 1, 4095, 4096, 4097, 8192];
             let extra = if thorough { 200 } else { 12 };
